@@ -168,7 +168,7 @@ def run(ctx):
             jobs.append((ctx.repo, D, isig, osig, False, "TORUS", 1, 1, None, (True,) * D, (), True))
             jobs.append((ctx.repo, D, isig, osig, False, "SAME", 1, 1, None, (False,) * D, (), True))
     by = {}
-    for job, r in zip(jobs, ctx.pmap(worker, jobs)):
+    for job, r in ctx.pairs(worker, jobs):
         cfg = r["cfg"]
         nontriv = len(cfg["input"]) >= 2 or len(cfg["target"]) >= 2 or cfg["use_bias"]
         ev.obligation("layer", not r["problems"], tuple(str(v) for v in cfg.values()) if nontriv else None, sample=cfg if ev.obligations % 31 == 0 else None)
